@@ -46,9 +46,9 @@ MC_CONFIGS = {
     "canary_t": mc("MC_canary", "SpecCanary", env=1, edit=1, ann=0, agecap=2),   # 599 k distinct states, 2 min
     "canary_t2": mc("MC_canary", "SpecCanary", env=0, edit=1, ann=2, agecap=2),
     "canary_fail_q": mc("MC_canary", "SpecCanary", strat="MC_StratFailFast", env=1, edit=1, ann=0, agecap=2, kinds='{"restart"}'),
-    "canary_fail_t": mc("MC_canary", "SpecCanary", strat="MC_StratFailFast", env=1, edit=1, ann=1, agecap=2, kinds='{"restart", "fail", "unready"}'),
+    "canary_fail_t": mc("MC_canary", "SpecCanary", strat="MC_StratFailFast", env=1, edit=1, ann=1, agecap=2, kinds='{"restart", "fail"}'),   # (with "unready": 6.3 M states, 29 min)
     "fine_q": mc("MC_canary", "SpecFine", strat="MC_StratFailFast", env=1, edit=1, ann=0, agecap=2, kinds='{"restart"}', fault=1),
-    "fine_t": mc("MC_canary", "SpecFine", strat="MC_StratFailFast", env=1, edit=2, ann=1, agecap=2, kinds='{"restart", "fail"}', fault=2),
+    "fine_t": mc("MC_canary", "SpecFine", strat="MC_StratFailFast", env=1, edit=1, ann=1, agecap=2, kinds='{"restart"}', fault=2),   # (edit=2, {restart, fail}: > 12 M states, not finished in 40 min)
     "canary_narrow_t": mc("MC_canary", "SpecCanary", env=1, edit=1, ann=0, agecap=2, kinds='{"narrow", "lost"}'),
     "rollout_lost_t": mc("MC_rollout", "Spec", env=1, edit=1, ann=0, kinds='{"lost", "fail", "dup"}'),
     # migration from a DaemonSet: every node starts with a ready pod of the old DaemonSet (OldDS <- MC_OldDS)
